@@ -164,16 +164,86 @@ Theorem C10_compile_quote : forall (bname : N -> text) f l tail d (s : vm), heap
 Proof. exact compile_quote_reads. Qed.
 Print Assumptions C10_compile_quote.
 
-(* OPEN (not proved; checked in-kernel on the examples below and on every case of wire
-   interface 8 by the correspondence check): evaluating (quote d) on the machine booted
-   with the prelude returns d.  Proved: the heap round trip and the compilation of the
-   quote form above; missing: transform_expr leaves (quote d) alone on the booted
-   machine, the run of ENTER / MOV_IMMEDIATE / RET / HALT, the heap invariant of the
-   booted machine and the final result conversion (the VM invariants of C01/C18). *)
+(* OPEN (not proved in this form; checked in-kernel on the examples below and on every case of
+   wire interface 8 by the correspondence check): evaluating (quote d) on the machine BOOTED
+   with the prelude returns d.
+   PROVED (C10_quote_eval_vm, C10_quote_eval_vm_outcome, C10_quote_eval_vm_empty below): the
+   same for EVERY machine state satisfying the invariant [minv] of C01 — in particular the
+   empty machine [vm_empty c], c > 0 — and every builtin table: the macro expander leaves
+   (quote d) alone (proved, on every machine), compile_runnable / put_lambda succeed, the run
+   through PUSH Argc 0 / MOV / CALL / ENTER / MOV_IMMEDIATE / RET / HALT reaches the HALT exit,
+   and the final conversion yields d unless the fuel of the model's get_as_cell runs out.
+   STILL OPEN: (1) [minv] of the booted machine (the interning invariant of the heap, injective
+   global slots and sp < capacity after compiling and running the whole prelude: not proved);
+   (2) the fuel premise of the final conversion ([halt_result m <> RNoFuel], or no pointer
+   chains in the heap and rcost d <= heap size + 1): the model's get_as_cell carries a fuel that
+   the Rust does not have (docs/WP-c01b.md R1), and heap size + 1 is not always enough
+   (C01_cell_fuel_insufficient); (3) that the fixed EVAL_FUEL of eval_cell is sufficient. *)
 From MW Require Import Model.VmBase Model.Vm Model.Builtins Model.WireDatum.
+From MW Require Import Proofs.RunProofs Proofs.CompileCorrect Proofs.CellFuelProofs Proofs.FragmentCorollaries.
 Definition C10_quote_eval_vm_stmt : Prop :=
   forall s0 d, booted = Some s0 -> heap_datum d ->
     exists s1, eval_cell (quote_form d) s0 = ROk (Done d) s1.
+
+(* the quote form handed to Vm::eval by the wire interface is the one of the theorems below *)
+Theorem C10_quote_form_eq : forall d, quote_form d = quote_of d.
+Proof. intros d. reflexivity. Qed.
+Print Assumptions C10_quote_form_eq.
+
+(* Vm::eval of (quote d), for every datum d with a heap representation, every builtin table ob
+   and EVERY machine state s satisfying [minv s] (Proofs/CompileCorrect.v: the interning invariant
+   [heap_inv] of the heap, global slots allocated injectively, sp < stack capacity; proved for
+   the empty machine [vm_empty c], c > 0, see C10_quote_eval_vm_empty; NOT proved for
+   [booted]).  No premise on the macro expander, the builtins or the global environment.
+   There are a step count n and a machine m that extends s (heap / Rc tables / global
+   bindings only grow) with the sp, bp, ep and output log of s, such that for every fuel >= n
+   the evaluation is the HALT exit of m [halt_result m]: the conversion of %acc by
+   Heap::get_as_cell and the wiping of the stack.  That conversion carries, IN THE MODEL ONLY,
+   a fuel (heap size + 1) bounding the depth of the traversal (docs/WP-c01b.md R1; the Rust has
+   none): unless it runs out — in particular when no heap cell holds a pointer and
+   rcost d = 1 + dcost d is at most heap size + 1 — the result is Done d. *)
+Theorem C10_quote_eval_vm : forall (ob : N -> M vcell) d s, heap_datum d -> minv s ->
+  exists n m, cext s m /\ sp m = sp s /\ bp m = bp s /\ ep m = ep s /\ out_log m = out_log s /\
+    (forall fuel, (n <= fuel)%nat -> eval ob fuel (quote_of d) s = halt_result m) /\
+    (halt_result m <> RNoFuel \/ (no_ptr_cells (hp m) /\ (rcost (RDatum d) <= cell_fuel m)%nat) ->
+     forall fuel, (n <= fuel)%nat ->
+       eval ob fuel (quote_of d) s = ROk (Done d) (with_stack m tempty (sp m))).
+Proof. exact quote_eval_vm. Qed.
+Print Assumptions C10_quote_eval_vm.
+
+(* for an ARBITRARY fuel (e.g. the EVAL_FUEL of eval_cell) the evaluation on a [minv] state is
+   NoFuel (of the run loop or of the final conversion) or Done d: never an error, a panic or
+   another datum *)
+Theorem C10_quote_eval_vm_outcome : forall (ob : N -> M vcell) d s, heap_datum d -> minv s ->
+  forall fuel, eval ob fuel (quote_of d) s = RNoFuel \/
+               exists s1, eval ob fuel (quote_of d) s = ROk (Done d) s1.
+Proof. exact quote_eval_vm_outcome. Qed.
+Print Assumptions C10_quote_eval_vm_outcome.
+Theorem C10_quote_eval_cell_outcome : forall d s, heap_datum d -> minv s ->
+  eval_cell (quote_form d) s = RNoFuel \/ exists s1, eval_cell (quote_form d) s = ROk (Done d) s1.
+Proof. intros d s Hd MI. exact (quote_eval_vm_outcome other_builtin d s Hd MI EVAL_FUEL). Qed.
+Print Assumptions C10_quote_eval_cell_outcome.
+
+(* the instance for the empty machine of any positive capacity *)
+Theorem C10_quote_eval_vm_empty : forall (ob : N -> M vcell) d c, heap_datum d -> 0 < c ->
+  exists n m, cext (vm_empty c) m /\ sp m = 0 /\ bp m = 0 /\ ep m = USIZE_MAX /\ out_log m = [] /\
+    (forall fuel, (n <= fuel)%nat -> eval ob fuel (quote_of d) (vm_empty c) = halt_result m) /\
+    (halt_result m <> RNoFuel \/ (no_ptr_cells (hp m) /\ (rcost (RDatum d) <= cell_fuel m)%nat) ->
+     forall fuel, (n <= fuel)%nat ->
+       eval ob fuel (quote_of d) (vm_empty c) = ROk (Done d) (with_stack m tempty (sp m))).
+Proof. exact quote_eval_vm_empty. Qed.
+Print Assumptions C10_quote_eval_vm_empty.
+
+(* non-vacuity: the hypotheses hold for the datum of C10_example_heap on the empty machine, and
+   the model computes (quote d) to d there with the real builtin table *)
+Example C10_example_quote_eval_vm_empty :
+  let d := CVec [new_list [CSym QUOTE; CSym (S_ "a")]; new_improper_list [CChar 955; CStr [34; 10]] (CNum (BigInt 5))] in
+  heap_datum d /\ minv (vm_empty 8192) /\
+  match eval other_builtin 100 (quote_of d) (vm_empty 8192) with
+  | ROk (Done c) s' => c = d /\ sp s' = 0 /\ bp s' = 0 /\ ep s' = USIZE_MAX
+  | _ => False
+  end.
+Proof. cbv zeta. split; [exact qex_heap_datum|]. split; [apply minv_vm_empty; reflexivity|exact qex_run]. Qed.
 
 (* ------------------------------------------------ the recorded defect class *)
 (* prefix-path-symbol: the reader produces, through the number-prefix path, a symbol
